@@ -536,4 +536,413 @@ theorem runChain_above (N : Nat) (strict : Bool) : ∀ chain v, Above N (runChai
   | [], _ => Above.ret trivial
   | (name, args) :: rest, v => Above.bind (stage_above N strict name v args) fun r _ => runChain_above N strict rest r
 
+
+/-! ## 4. Contents: what the operations return and leave behind on well-formed slices -/
+
+/-- `r` (a run on the memory) answers as the pure computation `p` does: the same error, panic or `unmodelled`,
+and when `p` succeeds with `b` the run succeeds with a value and a store related to `b` by `Q` -/
+def Refines {α β : Type} (r : Res Cause (Out α)) (p : Res Cause β) (Q : α → Store → β → Prop) : Prop :=
+  match p with
+  | .ok b => ∃ o, r = .ok o ∧ Q o.val o.st b
+  | .err c => r = .err c
+  | .panic w => r = .panic w
+  | .unmodelled w => r = .unmodelled w
+
+theorem Refines.bind_ok {α β γ : Type} {p : Prog α} {f : α → Prog β} {st : Store} {o1 : Out α} {pr : Res Cause γ}
+    {Q : β → Store → γ → Prop} (h1 : run p st = .ok o1) (h2 : Refines (run (f o1.val) o1.st) pr Q) :
+    Refines (run (p.bind f) st) pr Q := by
+  rw [run_bind, h1]
+  unfold thenRun
+  cases pr with
+  | ok b =>
+    obtain ⟨o2, e2, q2⟩ := h2
+    simp only [e2]
+    exact ⟨_, rfl, q2⟩
+  | err c => simp only [Refines] at h2 ⊢; rw [h2]
+  | panic w => simp only [Refines] at h2 ⊢; rw [h2]
+  | unmodelled w => simp only [Refines] at h2 ⊢; rw [h2]
+
+theorem Refines.post {α β : Type} {r : Res Cause (Out α)} {p : Res Cause β} {Q Q' : α → Store → β → Prop}
+    (h : Refines r p Q) (hq : ∀ a st b, Q a st b → Q' a st b) : Refines r p Q' := by
+  cases p with
+  | ok b => obtain ⟨o, e, q⟩ := h; exact ⟨o, e, hq _ _ _ q⟩
+  | err c => exact h
+  | panic w => exact h
+  | unmodelled w => exact h
+
+theorem lt_of_getElem?_some {α : Type} {l : List α} {i : Nat} {a : α} (h : l[i]? = some a) : i < l.length := by
+  rcases Nat.lt_or_ge i l.length with hlt | hge
+  · exact hlt
+  · rw [List.getElem?_eq_none hge] at h; cases h
+
+theorem view_some {st : Store} {r : SliceRef} {row : List GoVal} (h : st[r.arr]? = some row) :
+    view st (some r) = (row.drop r.off).take r.len := by
+  simp [view, h]
+
+theorem view_getElem? {st : Store} {r : SliceRef} {row : List GoVal} (h : st[r.arr]? = some row) (j : Nat) :
+    (view st (some r))[j]? = if j < r.len then row[r.off + j]? else none := by
+  rw [view_some h, List.getElem?_take, List.getElem?_drop]
+
+theorem view_length {st : Store} {r : SliceRef} {row : List GoVal} (h : st[r.arr]? = some row)
+    (hb : r.off + r.len ≤ row.length) : (view st (some r)).length = r.len := by
+  rw [view_some h, List.length_take, List.length_drop]
+  omega
+
+theorem view_length_wf {st : Store} {s : Slice} (h : Slice.wf st s) : (view st s).length = lenS s := by
+  cases s with
+  | none => rfl
+  | some r =>
+    obtain ⟨hlc, row, hr, hb⟩ := h
+    exact view_length hr (by omega)
+
+/-- a slice whose array is the same in two stores reads the same and stays well-formed -/
+theorem view_congr {st st' : Store} {r : SliceRef} (h : st'[r.arr]? = st[r.arr]?) : view st' (some r) = view st (some r) := by
+  simp [view, h]
+
+theorem wf_congr {st st' : Store} {r : SliceRef} (h : st'[r.arr]? = st[r.arr]?) (hw : r.wf st) : r.wf st' := by
+  obtain ⟨h1, row, hr, hb⟩ := hw
+  exact ⟨h1, row, by rw [h, hr], hb⟩
+
+/-- a slice below `N` in a store whose arrays below `N` were kept -/
+theorem Slice.view_kept {st st' : Store} {N : Nat} {a : Slice} (hk : ∀ b, b < N → st'[b]? = st[b]?)
+    (ha : ∀ r, a = some r → r.arr < N) : view st' a = view st a := by
+  cases a with
+  | none => rfl
+  | some r => exact view_congr (hk _ (ha r rfl))
+
+theorem Slice.wf_kept {st st' : Store} {N : Nat} {a : Slice} (hk : ∀ b, b < N → st'[b]? = st[b]?)
+    (ha : ∀ r, a = some r → r.arr < N) (hw : Slice.wf st a) : Slice.wf st' a := by
+  cases a with
+  | none => trivial
+  | some r => exact wf_congr (hk _ (ha r rfl)) hw
+
+/-! ### loads -/
+
+theorem run_readRange {st : Store} {a : Nat} {row : List GoVal} (hr : st[a]? = some row) :
+    ∀ n off, off + n ≤ row.length → run (readRange a off n) st = .ok ⟨(row.drop off).take n, st, []⟩
+  | 0, off, _ => by simp [readRange, run]
+  | n + 1, off, hb => by
+    have hlt : off < row.length := by omega
+    have hread : readAt st a off = some row[off] := by
+      simp [readAt, hr, List.getElem?_eq_getElem hlt]
+    simp only [readRange, run, hread]
+    rw [run_bind, run_readRange hr n (off + 1) (by omega)]
+    simp only [thenRun, run, List.append_nil]
+    rw [List.drop_eq_getElem_cons hlt, List.take_succ_cons]
+
+theorem run_elems {st : Store} {s : Slice} (hw : Slice.wf st s) : run (elems s) st = .ok ⟨view st s, st, []⟩ := by
+  cases s with
+  | none => rfl
+  | some r =>
+    obtain ⟨hlc, row, hr, hb⟩ := hw
+    simp only [elems]
+    rw [run_readRange hr r.len r.off (by omega), view_some hr]
+
+theorem run_index {st : Store} {r : SliceRef} (hw : r.wf st) {i : Nat} (hi : i < r.len) :
+    ∃ v, (view st (some r))[i]? = some v ∧ run (index (some r) i) st = .ok ⟨v, st, []⟩ := by
+  obtain ⟨hlc, row, hr, hb⟩ := hw
+  have hlt : r.off + i < row.length := by omega
+  refine ⟨row[r.off + i], ?_, ?_⟩
+  · rw [view_getElem? hr, if_pos hi, List.getElem?_eq_getElem hlt]
+  · simp [index, hi, run, readAt, hr, List.getElem?_eq_getElem hlt]
+
+/-! ### stores -/
+
+/-- a row after consecutive stores -/
+def writeRow : List GoVal → Nat → List GoVal → List GoVal
+  | row, _, [] => row
+  | row, p, v :: vs => writeRow (row.set p v) (p + 1) vs
+
+theorem writeRow_length : ∀ (vs : List GoVal) (row : List GoVal) (p : Nat), (writeRow row p vs).length = row.length
+  | [], _, _ => rfl
+  | v :: vs, row, p => by simp [writeRow, writeRow_length vs]
+
+theorem writeRow_getElem? : ∀ (vs : List GoVal) (row : List GoVal) (p : Nat), p + vs.length ≤ row.length → ∀ i,
+    (writeRow row p vs)[i]? = if p ≤ i ∧ i < p + vs.length then vs[i - p]? else row[i]?
+  | [], row, p, _, i => by
+    have : ¬ (p ≤ i ∧ i < p + ([] : List GoVal).length) := by simp only [List.length_nil]; omega
+    simp only [writeRow, if_neg this]
+  | v :: vs, row, p, hb, i => by
+    simp only [List.length_cons] at hb
+    simp only [writeRow]
+    rw [writeRow_getElem? vs (row.set p v) (p + 1) (by simp; omega) i]
+    by_cases h1 : p + 1 ≤ i ∧ i < p + 1 + vs.length
+    · have h2 : p ≤ i ∧ i < p + (v :: vs).length := by simp only [List.length_cons]; omega
+      rw [if_pos h1, if_pos h2]
+      have : i - p = (i - (p + 1)) + 1 := by omega
+      rw [this, List.getElem?_cons_succ]
+    · rw [if_neg h1]
+      by_cases h3 : i = p
+      · subst h3
+        have h2 : i ≤ i ∧ i < i + (v :: vs).length := by simp only [List.length_cons]; omega
+        rw [if_pos h2, List.getElem?_set]
+        simp
+        omega
+      · have h2 : ¬ (p ≤ i ∧ i < p + (v :: vs).length) := by simp only [List.length_cons]; omega
+        rw [if_neg h2, List.getElem?_set, if_neg (Ne.symm h3)]
+
+theorem run_writeRange : ∀ (vs : List GoVal) {st : Store} {a : Nat} {row : List GoVal} (off : Nat), st[a]? = some row →
+    off + vs.length ≤ row.length → ∃ log, run (writeRange a off vs) st = .ok ⟨(), st.set a (writeRow row off vs), log⟩
+  | [], st, a, row, off, hr, _ => by
+    refine ⟨[], ?_⟩
+    simp only [writeRange, run, writeRow]
+    have ha := lt_of_getElem?_some hr
+    have : st.set a row = st := by
+      apply List.ext_getElem?
+      intro i
+      rw [List.getElem?_set]
+      by_cases h : a = i
+      · subst h; rw [if_pos rfl, if_pos ha, hr]
+      · rw [if_neg h]
+    rw [this]
+  | v :: vs, st, a, row, off, hr, hb => by
+    simp only [List.length_cons] at hb
+    have ha := lt_of_getElem?_some hr
+    have hlt : off < row.length := by omega
+    have hw : writeAt st a off v = some (st.set a (row.set off v)) := by simp [writeAt, hr, hlt]
+    have hr1 : (st.set a (row.set off v))[a]? = some (row.set off v) := by rw [List.getElem?_set_self ha]
+    obtain ⟨log, hrun⟩ := run_writeRange vs (off + 1) hr1 (by simp; omega)
+    refine ⟨(a, off) :: log, ?_⟩
+    simp only [writeRange, run, hw, hrun, logged, writeRow, List.set_set]
+
+/-- the slice `r` read after a block of stores into its array -/
+theorem view_after_writeRow {st : Store} {r : SliceRef} {row : List GoVal} (hr : st[r.arr]? = some row)
+    {q : Nat} {vs : List GoVal} (hq : q + vs.length ≤ row.length) (j : Nat) :
+    (view (st.set r.arr (writeRow row q vs)) (some r))[j]? =
+      if j < r.len then (if q ≤ r.off + j ∧ r.off + j < q + vs.length then vs[r.off + j - q]? else row[r.off + j]?) else none := by
+  have ha := lt_of_getElem?_some hr
+  have hr' : (st.set r.arr (writeRow row q vs))[r.arr]? = some (writeRow row q vs) := by rw [List.getElem?_set_self ha]
+  rw [view_getElem? hr', writeRow_getElem? vs row q hq]
+
+theorem run_make {st : Store} {len cap : Nat} (h : len ≤ cap) :
+    run (make len cap) st = .ok ⟨some ⟨st.length, 0, len, cap⟩, st ++ [List.replicate cap .nil], []⟩ := by
+  simp [make, h, run]
+
+
+/-! ### `append`, `copy`, `overwrite`, `setIndex` on well-formed slices -/
+
+theorem growCap_ge (old need : Nat) : need ≤ growCap old need := Nat.le_max_left _ _
+
+/-- `append` on a well-formed slice never panics; the result reads as the old elements followed by the new ones -/
+theorem run_append {st : Store} {s : Slice} (hw : Slice.wf st s) (vs : List GoVal) :
+    ∃ o, run (append s vs) st = .ok o ∧ view o.st o.val = view st s ++ vs ∧ Slice.wf o.st o.val ∧
+      lenS o.val = lenS s + vs.length := by
+  unfold append
+  by_cases hfit : lenS s + vs.length ≤ capS s
+  · rw [if_pos hfit]
+    cases s with
+    | none =>
+      have : vs = [] := by
+        cases vs with
+        | nil => rfl
+        | cons v vs => simp [lenS, capS] at hfit
+      subst this
+      exact ⟨⟨none, st, []⟩, rfl, rfl, trivial, rfl⟩
+    | some r =>
+      obtain ⟨hlc, row, hr, hb⟩ := hw
+      simp only [lenS, capS] at hfit
+      obtain ⟨log, hrun⟩ := run_writeRange vs (r.off + r.len) hr (by omega)
+      have ha := lt_of_getElem?_some hr
+      refine ⟨_, by simp only; rw [run_bind, hrun]; rfl, ?_, ?_, rfl⟩
+      · simp only
+        apply List.ext_getElem?
+        intro j
+        have hview := view_after_writeRow (r := { r with len := r.len + vs.length }) hr (q := r.off + r.len) (vs := vs) (by omega) j
+        simp only at hview
+        rw [hview, List.getElem?_append, view_length hr (by omega), view_getElem? hr]
+        by_cases h1 : j < r.len
+        · have h2 : j < r.len + vs.length := by omega
+          have h3 : ¬ (r.off + r.len ≤ r.off + j ∧ r.off + j < r.off + r.len + vs.length) := by omega
+          rw [if_pos h1, if_pos h2, if_neg h3, if_pos h1]
+        · rw [if_neg h1]
+          by_cases h2 : j < r.len + vs.length
+          · have h3 : r.off + r.len ≤ r.off + j ∧ r.off + j < r.off + r.len + vs.length := by omega
+            rw [if_pos h2, if_pos h3]
+            congr 1
+            omega
+          · rw [if_neg h2]
+            symm
+            apply List.getElem?_eq_none
+            omega
+      · refine ⟨by simp only; omega, writeRow row (r.off + r.len) vs, ?_, ?_⟩
+        · simp only; rw [List.getElem?_set_self ha]
+        · rw [writeRow_length]; exact hb
+  · rw [if_neg hfit]
+    rw [run_bind, run_elems hw]
+    simp only [thenRun, run, List.nil_append]
+    have hlen := view_length_wf hw
+    have hge := growCap_ge (capS s) (lenS s + vs.length)
+    generalize view st s = old at hlen ⊢
+    generalize growCap (capS s) (lenS s + vs.length) = c at hge ⊢
+    have hrow : (st ++ [old ++ vs ++ List.replicate (c - (lenS s + vs.length)) GoVal.nil])[st.length]? =
+        some (old ++ vs ++ List.replicate (c - (lenS s + vs.length)) GoVal.nil) := List.getElem?_concat_length
+    refine ⟨_, rfl, ?_, ?_, rfl⟩
+    · simp only
+      rw [view_some (r := ⟨st.length, 0, lenS s + vs.length, c⟩) hrow]
+      simp only [List.drop_zero]
+      apply List.take_left'
+      rw [List.length_append, hlen]
+    · refine ⟨hge, _, hrow, ?_⟩
+      simp only [List.length_append, List.length_replicate, hlen]
+      omega
+
+/-- `copy(dst, src)` of two slices of the same length: `dst` reads as `src` did -/
+theorem run_copy_full {st : Store} {d s : SliceRef} (hd : d.wf st) (hs : s.wf st) (hl : d.len = s.len) :
+    ∃ o, run (copy (some d) (some s)) st = .ok o ∧ view o.st (some d) = view st (some s) ∧ d.wf o.st := by
+  obtain ⟨hdc, drow, hdr, hdb⟩ := hd
+  obtain ⟨hsc, srow, hsr, hsb⟩ := hs
+  have hmin : min d.len s.len = s.len := by omega
+  simp only [copy, hmin]
+  rw [run_bind, run_readRange hsr s.len s.off (by omega)]
+  simp only [thenRun]
+  have hvl : ((srow.drop s.off).take s.len).length = s.len := by
+    rw [List.length_take, List.length_drop]; omega
+  obtain ⟨log, hrun⟩ := run_writeRange ((srow.drop s.off).take s.len) d.off hdr (by rw [hvl]; omega)
+  have ha := lt_of_getElem?_some hdr
+  rw [run_bind, hrun]
+  simp only [thenRun, run]
+  refine ⟨_, rfl, ?_, ?_⟩
+  · simp only
+    apply List.ext_getElem?
+    intro j
+    rw [view_after_writeRow hdr (by rw [hvl]; omega), view_some hsr, hvl]
+    by_cases h1 : j < d.len
+    · have h3 : d.off ≤ d.off + j ∧ d.off + j < d.off + s.len := by omega
+      rw [if_pos h1, if_pos h3]
+      congr 1
+      omega
+    · rw [if_neg h1]
+      symm
+      apply List.getElem?_eq_none
+      rw [hvl]; omega
+  · refine ⟨hdc, writeRow drow d.off ((srow.drop s.off).take s.len), ?_, ?_⟩
+    · simp only; rw [List.getElem?_set_self ha]
+    · rw [writeRow_length]; exact hdb
+
+/-- every index stored anew: the slice reads as the list written -/
+theorem run_overwrite {st : Store} {r : SliceRef} (hw : r.wf st) {ys : List GoVal} (hl : ys.length = r.len) :
+    ∃ o, run (overwrite (some r) ys) st = .ok o ∧ view o.st (some r) = ys ∧ r.wf o.st := by
+  obtain ⟨hc, row, hr, hb⟩ := hw
+  obtain ⟨log, hrun⟩ := run_writeRange ys r.off hr (by omega)
+  have ha := lt_of_getElem?_some hr
+  refine ⟨_, hrun, ?_, ?_⟩
+  · simp only
+    apply List.ext_getElem?
+    intro j
+    rw [view_after_writeRow hr (by omega)]
+    by_cases h1 : j < r.len
+    · have h3 : r.off ≤ r.off + j ∧ r.off + j < r.off + ys.length := by omega
+      rw [if_pos h1, if_pos h3]
+      congr 1
+      omega
+    · rw [if_neg h1]
+      symm
+      apply List.getElem?_eq_none
+      omega
+  · refine ⟨hc, writeRow row r.off ys, ?_, ?_⟩
+    · simp only; rw [List.getElem?_set_self ha]
+    · rw [writeRow_length]; exact hb
+
+/-- `s[i] = v` on a well-formed slice: the slice reads as before with position `i` replaced -/
+theorem run_setIndex {st : Store} {r : SliceRef} (hw : r.wf st) {i : Nat} (hi : i < r.len) (v : GoVal) :
+    ∃ o, run (setIndex (some r) i v) st = .ok o ∧ view o.st (some r) = (view st (some r)).set i v ∧ r.wf o.st := by
+  obtain ⟨hc, row, hr, hb⟩ := hw
+  have ha := lt_of_getElem?_some hr
+  have hlt : r.off + i < row.length := by omega
+  have hwr : writeAt st r.arr (r.off + i) v = some (st.set r.arr (row.set (r.off + i) v)) := by simp [writeAt, hr, hlt]
+  have hr' : (st.set r.arr (row.set (r.off + i) v))[r.arr]? = some (row.set (r.off + i) v) := by
+    rw [List.getElem?_set_self ha]
+  refine ⟨⟨(), st.set r.arr (row.set (r.off + i) v), [(r.arr, r.off + i)]⟩, ?_, ?_, ?_⟩
+  · simp [setIndex, hi, run, hwr, logged]
+  · simp only
+    apply List.ext_getElem?
+    intro j
+    rw [view_getElem? hr', List.getElem?_set, List.getElem?_set, view_getElem? hr, view_length hr (by omega)]
+    by_cases h1 : j < r.len
+    · rw [if_pos h1]
+      by_cases h2 : i = j
+      · subst h2
+        rw [if_pos rfl, if_pos rfl, if_pos hlt, if_pos hi]
+      · have h3 : ¬ (r.off + i = r.off + j) := by omega
+        rw [if_neg h3, if_neg h2, if_pos h1]
+    · rw [if_neg h1]
+      have h2 : ¬ (i = j) := by omega
+      rw [if_neg h2, if_neg h1]
+  · exact ⟨hc, _, hr', by simpa using hb⟩
+
+
+/-! ### the `range … append` loop -/
+
+theorem Refines.bind_pure {α β γ : Type} {r : Res Cause (Out α)} {x : Res Cause β} {g : β → γ}
+    {Q : α → Store → β → Prop} {Q' : α → Store → γ → Prop}
+    (h : Refines r x Q) (hq : ∀ v st b, Q v st b → Q' v st (g b)) : Refines r (x.bind fun b => .ok (g b)) Q' := by
+  cases x with
+  | ok b => obtain ⟨o, e, q⟩ := h; exact ⟨o, e, hq _ _ _ q⟩
+  | err c => exact h
+  | panic w => exact h
+  | unmodelled w => exact h
+
+theorem drop_of_getElem? {l : List GoVal} {i : Nat} {v : GoVal} (h : l[i]? = some v) : l.drop i = v :: l.drop (i + 1) := by
+  obtain ⟨hlt, rfl⟩ := List.getElem?_eq_some_iff.mp h
+  exact List.drop_eq_getElem_cons hlt
+
+/-- what the loop leaves: `res` extended by what the pure loop collects, in an array at or above `N`;
+the arrays below `N` — the one `a` lies in among them — as they were -/
+def CollectPost (N : Nat) (st : Store) (res : Slice) (v : Slice) (st' : Store) (ys : List GoVal) : Prop :=
+  view st' v = view st res ++ ys ∧ Slice.wf st' v ∧ Fresh N v ∧ (∀ b, b < N → st'[b]? = st[b]?) ∧ st.length ≤ st'.length
+
+theorem collectFrom_refines {σ : Type} (step : σ → GoVal → Res Cause (σ × Option GoVal)) (N : Nat) (a : Slice)
+    (ha : ∀ r, a = some r → r.arr < N) :
+    ∀ n i s res st, N ≤ st.length → Slice.wf st a → Slice.wf st res → Fresh N res → i + n = lenS a →
+      Refines (run (collectFrom a step n i s res) st) (collectP step s ((view st a).drop i)) (CollectPost N st res)
+  | 0, i, s, res, st, _, hwa, hwr, hfr, hin => by
+    have hd : (view st a).drop i = [] := by
+      apply List.drop_eq_nil_of_le
+      rw [view_length_wf hwa]; omega
+    rw [hd]
+    exact ⟨⟨res, st, []⟩, rfl, by simp, hwr, hfr, fun _ _ => rfl, Nat.le_refl _⟩
+  | n + 1, i, s, res, st, hN, hwa, hwr, hfr, hin => by
+    cases a with
+    | none => simp [lenS] at hin
+    | some r =>
+      simp only [lenS] at hin
+      obtain ⟨v, hv, hidx⟩ := run_index hwa (show i < r.len by omega)
+      rw [drop_of_getElem? hv]
+      unfold collectFrom
+      refine Refines.bind_ok hidx ?_
+      simp only [collectP]
+      cases hstep : step s v with
+      | err c => exact rfl
+      | panic w => exact rfl
+      | unmodelled w => exact rfl
+      | ok p =>
+        simp only [liftR, Prog.bind, Res.bind]
+        cases hp2 : p.2 with
+        | none =>
+          simp only
+          have ih := collectFrom_refines step N (some r) ha n (i + 1) p.1 res st hN hwa hwr hfr (by simp only [lenS]; omega)
+          exact Refines.bind_pure ih (fun _ _ _ q => q)
+        | some w =>
+          simp only
+          obtain ⟨o1, hrun1, hview1, hwf1, _⟩ := run_append hwr [w]
+          obtain ⟨hlen1, hkept1, _, hfresh1⟩ := (append_above hfr [w]).keeps hN hrun1
+          refine Refines.bind_ok hrun1 ?_
+          have hwa1 : Slice.wf o1.st (some r) := Slice.wf_kept hkept1 ha hwa
+          have hva1 : view o1.st (some r) = view st (some r) := Slice.view_kept hkept1 ha
+          have ih := collectFrom_refines step N (some r) ha n (i + 1) p.1 o1.val o1.st (Nat.le_trans hN hlen1) hwa1 hwf1 hfresh1
+            (by simp only [lenS]; omega)
+          rw [hva1] at ih
+          refine Refines.bind_pure ih ?_
+          intro v' st' ys ⟨q1, q2, q3, q4, q5⟩
+          refine ⟨?_, q2, q3, fun b hb => by rw [q4 b hb, hkept1 b hb], Nat.le_trans hlen1 q5⟩
+          rw [q1, hview1, List.append_assoc]
+          rfl
+
+theorem collect_refines {σ : Type} (step : σ → GoVal → Res Cause (σ × Option GoVal)) {N : Nat} {a : Slice}
+    (ha : ∀ r, a = some r → r.arr < N) (s0 : σ) {res : Slice} {st : Store} (hN : N ≤ st.length) (hwa : Slice.wf st a)
+    (hwr : Slice.wf st res) (hfr : Fresh N res) :
+    Refines (run (collect a step s0 res) st) (collectP step s0 (view st a)) (CollectPost N st res) := by
+  have := collectFrom_refines step N a ha (lenS a) 0 s0 res st hN hwa hwr hfr (by omega)
+  simpa [collect] using this
+
 end Heap
